@@ -191,3 +191,14 @@ package index
 //@ func (*multiWidthCodedIndex).Unmarshal
 //@   call[binary.Read#0] assert code_field [C11]: binsize(arg2) == 8
 //@   call[multiWidthIndex.Unmarshal#0] assert same_reader [C11]: ref(arg1) == ref(r)
+
+// Building the sorted buckets from records (C03, C11): every record goes into the list of its digest length with its
+// own digest and offset; each list is sorted before it is laid out; the bucket stored under width+8 has that width, the list's length and that compact form.
+
+//@ func (*multiWidthIndex).Load
+//@   let dec, derr := call[multihash.Decode#0]
+//@   call[multihash.Decode#0] assert own_hash [C03,C11]: true
+//@   call[append#0] assert record_kept_with_its_offset [C03,C11]: len(arg1) == 1 && ref(arg1[0].digest) == ref(dec.Digest) && arg1[0].index == item.Offset
+//@   call[mapupdate#1] assert listed_under_its_digest_length [C03,C11]: key == len(dec.Digest)
+//@   note the layout of the compact form (record of rank k in slot k) is not under contract: products of two variables
+//@   call[mapupdate#2] assert bucket_fields [C03,C11]: key == wrap_u32(wrap_u32(width) + 8) && value.width == wrap_u32(rcrdWdth) && value.len == len(lst) && ref(value.index) == ref(compact)
